@@ -388,6 +388,18 @@ def sigma_inv(s):
     return out
 
 
+def switch_ring(s, n):
+    """vec_znx_switch_ring into degree n >= len(s): X -> X^(n/len)"""
+    d = len(s)
+    if d == n:
+        return list(s)
+    gap = n // d
+    out = [0] * n
+    for k, x in enumerate(s):
+        out[k * gap] = x
+    return out
+
+
 def key_oracle(lay, c, a, cells, es, limb):
     """the key hypothesis of the consumers, checked on the implementation's key with Python integers (independent of the model): for every
     row r and input column i: phase under the output secret == s_in_i * 2^(b*(size-(r+1)*dsize)) + e * 2^(b*(size-1-limb))  (mod 2^(b*size)).
@@ -403,7 +415,7 @@ def key_oracle(lay, c, a, cells, es, limb):
     if lay == "gglwe":
         msgs, sout = [col[0] for col in parse_cols(a["pt"])][:c["rank_in"]], sk
     elif lay == "ksk":
-        msgs, sout = skin, sk
+        msgs, sout = [switch_ring(x, n) for x in skin], [switch_ring(x, n) for x in sk]
     elif lay == "lksk":
         msgs, sout = [sigma_inv(pad(lin))], [sigma_inv(pad(lout))]
     elif lay == "g2l":
@@ -448,7 +460,9 @@ def gen_key_case(rng, idx):
     if lay == "lksk" and idx % 3 == 0:
         c["nlout"], c["nlin"] = min(c["nlin"], c["nlout"]), max(c["nlin"], c["nlout"])      # n_lwe_in > n_lwe_out, and the other way round below
     if lay == "ksk":
-        pass
+        degs = [n >> j for j in range(0, n.bit_length())]
+        c["nin"] = rng.choice([n] + degs)
+        c["nout"] = rng.choice([n] + degs)
     if lay in ("gglwe", "ggsw"):
         cols = rank_in if lay == "gglwe" else 1
         half = 1 << (b - 1)
@@ -466,6 +480,8 @@ def key_harness_line(i, c):
          f"dnum={c['dnum']} dsize={c['dsize']} p={c['p']} nlin={c['nlin']} nlout={c['nlout']} dist={c['dist']} sxs={c['sxs']} sxa={c['sxa']} sxe={c['sxe']}")
     if "pt" in c:
         s += f" pt={c['pt']}"
+    if "nin" in c:
+        s += f" nin={c['nin']} nout={c['nout']}"
     return s
 
 
@@ -517,7 +533,7 @@ def keygen_gate(ctx, binp, drv, rng, count, broken):
         per[c["layout"]] = per.get(c["layout"], 0) + 1
         cells_total += int(a["cells"])
         ctx.count_case(("keygen", c["layout"], c["be"], c["n"], c["rank"], c["rank_in"], c["dnum"], c["dsize"], min(c["b"], 18) // 4,
-                        c["dist"][:2], (c["nlin"] > c["nlout"]) - (c["nlin"] < c["nlout"]) if c["layout"] == "lksk" else 0))
+                        c["dist"][:2], (c["nlin"] > c["nlout"]) - (c["nlin"] < c["nlout"]) if c["layout"] == "lksk" else 0, c.get("nin", 0), c.get("nout", 0)))
         if len(t) >= 2 and t[1] == a["obj"]:
             agree += 1
         else:
